@@ -4,8 +4,8 @@ Import ListNotations.
 Require Import Base Cursor Trie TrieProofs TrieSpec TrieLongest.
 Open Scope Z_scope.
 
-(* For ANY list of registrations (non-empty symbols, types other than Unknown; any lengths, shared prefixes, any
-   order, repeated registrations) and ANY input with at least one character left, the token returned by the
+(* For ANY list of registrations (non-empty symbols, any token type - Unknown included, which the code once took for
+   "not yet registered": F34; any lengths, shared prefixes, any order, repeated registrations) and ANY input with at least one character left, the token returned by the
    symbol state built from them:
    - has as text a non-empty prefix of the remaining input, and exactly that many characters are consumed;
    - its text is a registered symbol or a single character (a proper prefix of a registered symbol that was not
@@ -42,6 +42,13 @@ Example C16_nonvacuous :
   run [97; 98; 100] = (Word, [97], 1%nat) /\ run [97; 98; 99; 100] = (Keyword, [97; 98; 99], 3%nat) /\
   run [98; 97] = (Symbol, [98], 1%nat) /\ run [98; 98] = (Eol, [98; 98], 2%nat).
 Proof. vm_compute. repeat split. Qed.
+
+(* a symbol registered with the type Unknown keeps it when longer symbols with the same first character follow *)
+Example C16_unknown_is_a_type_like_any_other :
+  let regs := [([64], Unknown); ([64; 61], Special); ([64; 64], Word)] in
+  let run i := let '(t, s) := symbol_next (fun _ => (0, 0)) (build regs) {| content := i; p := 0 |} in (ty t, value t, p s) in
+  Forall valid_reg regs /\ run [64; 97] = (Unknown, [64], 1%nat) /\ run [64; 61] = (Special, [64; 61], 2%nat).
+Proof. split; [repeat constructor; discriminate|]. vm_compute. repeat split. Qed.
 
 Print Assumptions C16_longest_registered_symbol_with_its_type.
 Print Assumptions C16_table_is_its_registrations.
